@@ -46,7 +46,8 @@ META = {
                   'process_file / load_config (streams: module, node, merge, dict built by Mod(...), configuration left '
                   'unchanged by a start), and the Lean monitors judge every observed record - for config files against the '
                   'configuration AS WRITTEN, for every module of every start (a clean node is started twice from the same '
-                  'loaded configuration).',
+                  'loaded configuration).  Configurations given as files are loaded and processed by the real Server '
+                  '(Server.__init__, Server._processCfg incl. its stderr report and sys.exit).',
     'level_note': 'Trusted: Lean kernel + axioms propext/Classical.choice/Quot.sound; datatypes are oracles in the theorems '
                   '(laws assumed: none beyond totality; the driver instance for double/int/string/bool/enum/array/tuple on a '
                   'quarter grid is checked by the correspondence run only); the text of a config file is executed Python - '
@@ -64,9 +65,11 @@ META = {
         'exec of the config file text (config.py:process_file); Mod/Param/Group calls are modelled, arbitrary Python in a file is not',
         'Parameter.finish for `constant`, applyMainUnit ($ units), Command accessibles in the cfg, `datatype` given in the cfg',
         'mandatory properties of Parameter objects (description/datatype): always present in generated classes',
-        'Server._processCfg sys.exit(1): observed as "SecNode.errors non-empty"; the real Server._processCfg runs in a '
-        'subprocess for four fixed configurations only',
-        'Server.restart: observed as a second SecNode built from the same module_cfg objects (what _processCfg does)',
+        'Server.__init__ / Server._processCfg (load_config, SecNode + Dispatcher, create_modules, the report on stderr, '
+        'sys.exit(1)) are not modelled line by line: every configuration given as files is processed by the real Server '
+        'in-process (SystemExit caught, stderr captured: the report the operator gets is what is classified; a second '
+        '_processCfg of the same Server is the restart), raw-dict configurations by vlib.node.Node; a real Server in a '
+        'subprocess runs on four fixed configurations',
         'attached modules: the model of SecNode.get_module / Attached.__get__ covers resolution order, kind check, failed and '
         'cyclic targets and the second run of a failing constructor; Pinata modules (scanModules), an Attached accessed inside a '
         'constructor, and what earlyInit/initModule do besides asking for attached modules are not modelled',
@@ -1178,7 +1181,7 @@ def observe_node(node, eff, errs):
     from frappy.modules import Attached
     ierrs = init_errors(node.errors)
     obs = {'configured': list(eff), 'registered': list(node.modules), 'reported': [k for k in errs],
-           'starts': not node.errors, 'initReported': sorted({e[0] for e in ierrs}), 'attached': [],
+           'starts': getattr(node, 'started', not node.errors), 'initReported': sorted({e[0] for e in ierrs}), 'attached': [],
            'init': ierrs, 'blocks': creation_blocks(node.errors),
            'unclassified': [e.get('text') for e in errs.get('?', [])]}
     if not node.errors:
@@ -1208,6 +1211,8 @@ def node_sig(judge, nodeobs):
     if judge['ok']:
         return None
     if not judge.get('node', False):
+        if nodeobs['starts'] and (nodeobs['reported'] or nodeobs['initReported']):
+            return 'C10:node:starts-with-failing-modules'
         return 'C10:node:failing-module-not-reported'
     if not judge['attached']:
         if judge['bad'] and nodeobs['starts']:
@@ -1285,6 +1290,7 @@ def server_node(srv):
         logging.disable(logging.NOTSET)
     node.srv, node.secnode, node.dispatcher = srv, srv.secnode, srv.dispatcher
     node.stderr = err.getvalue()
+    node.started = node.exited is None                  # `_processCfg` came back: the node starts
     if node.exited is None:
         node.errors = list(srv.secnode.errors)          # a node which starts although it has errors is judged as such
     else:
